@@ -474,7 +474,7 @@ def gen_enum(rng, trait=None, mode=None, allow_known=True, bad_multi=False):
     nv = rng.choice((1, 2, 3, 3, 4, 4, 5))
     pool_t = type_pool(letter)
     used = set()
-    if es.mode == "default" and es.trait != "Display" and allow_known and rng.random() < 0.04:
+    if es.mode == "default" and es.trait != "Display" and allow_known and rng.random() < 0.06:
         es.nd_unit_default = True
         family = "any"
     for i in range(nv):
@@ -616,7 +616,8 @@ def fixed_cases():
 
     def add(cid, cls, items, checks, what):
         body = "\n".join('cmp("%s", &%s, %s);' % (k, got, rs_str(want)) for k, (got, want) in enumerate(checks))
-        out.append(Case(cid, ("fixed",) + cls, items, body, expect=len(checks), meta={"what": what, "enum": items, "plan": {}, "es": None}))
+        out.append(Case(cid, ("fixed",) + cls, items, body, expect=len(checks),
+                        meta={"what": what, "enum": items, "plan": {str(k): {"value": got} for k, (got, _) in enumerate(checks)}, "es": None}))
 
     add("doc_wrap", ("doc", "wrap"), """#[derive(derive_more::Display)]
 #[display("Variant: {_variant} & {}", _variant)]
@@ -722,9 +723,9 @@ def with_shared(es, lit):
 
 
 def run_rejections(ctx, rng):
-    n_spec = ctx.pick(1500, 12000)
-    n_dbg = ctx.pick(400, 3000)
-    n_multi = ctx.pick(200, 1500)
+    n_spec = ctx.pick(3000, 24000)
+    n_dbg = ctx.pick(800, 6000)
+    n_multi = ctx.pick(400, 3000)
     l1 = []       # (id, derive, item)
     info = {}
     k = 0
@@ -822,19 +823,29 @@ def run_rejections(ctx, rng):
         inf = {"kind": "bad-index", "key": "accepted:bad-index", "cls": ("reject", "bad-index", i), "what": sh}
         cases.append(Case("bi%d" % i, inf["cls"], "#[derive(derive_more::Display)]\n#[display(%s)]\npub enum E { %s }" % (sh, vs), "",
                           must_fail=True, meta=inf))
+    # documentation is silent on a `_variant` argument that is only reachable indirectly (aliased argument used by
+    # index, or inside a larger expression): only recorded
+    for i, (sh, vs) in enumerate([('"<{0}>", v = _variant', "A(i32), C"), ('"<{}>", _variant.to_string()', "A(i32), C")]):
+        inf = {"kind": "observe", "key": "", "cls": ("observe", i), "what": sh}
+        cases.append(Case("ob%d" % i, inf["cls"], "#[derive(derive_more::Display)]\n#[display(%s)]\npub enum E { %s }" % (sh, vs), "",
+                          must_fail=True, meta=inf))
     res = l2.build_and_run(ctx, "reject", cases, run=False, nshards=min(common.NCPU, max(1, len(cases) // 6)))
     ctx.extra["reject_build_rounds"] = res.rounds
+    sampled = set()
     for c in cases:
         inf = c.meta
         if inf["kind"] == "bad-index":
             ctx.count()
             ctx.cls(inf["cls"])
+        if inf["kind"] == "observe":
+            ctx.bump("obs_indirect_variant_argument_" + ("rejected" if c.id in res.compile_errors else "compiles"))
+            continue
         if c.id in res.compile_errors:
             ctx.bump("rejected_by_rustc")
             if c.id in let_through:
                 ctx.bump("rejected_by_rustc_only")
-            if len(ctx.samples) < 12 and ctx.extra.get("reject_samples", 0) < 3:
-                ctx.bump("reject_samples")
+            if inf["kind"] not in sampled:
+                sampled.add(inf["kind"])
                 ctx.sample({"must_be_rejected": inf["kind"], "item": c.items, "rustc": l2.err_text(res.compile_errors[c.id], 1)[:300]})
         else:
             ctx.violate(inf["key"], "%s compiles although it must be rejected: %s" % (inf["kind"], c.items[-600:]),
@@ -853,7 +864,7 @@ def first_line(msg):
 def run(ctx):
     rng = ctx.rng
     inproc.build()
-    n = ctx.pick(320, 5000)
+    n = ctx.pick(900, 15000)
     cases = fixed_cases()
     for i in range(n):
         es = gen_enum(rng)
@@ -861,8 +872,8 @@ def run(ctx):
     ctx.rule = ("enums for the 8 Display-like derives (Display weighted 1/2): 1-5 variants drawn from unit / empty tuple / empty struct / tuple(1-3) / named(1-3) "
                 "(families: any, all-tuple, all-named so that fields common to all variants exist), field types from i32,u8,i64,u16,f64,&str,String,char,bool,"
                 "&'static i32 and rt::Spy restricted to what the used placeholders need, 50% of the variants with an own literal (1-4 pieces of text/escapes, field "
-                "placeholders named directly / implicit / explicit index / aliased with random std specs, literal arguments, `.*`, `w$`), rename_all on 30% of the enums "
-                "and of the field-less variants, 15% with a type parameter; enum-level literal: none (trivial), bare `{_variant}` in 5 spellings, wrapping with 1-3 "
+                "placeholders named directly / implicit / explicit index / aliased with random std specs, literal arguments, `.*`, `w$`), rename_all on 20-50% of the enums "
+                "and 40% of the field-less variants, 15% with a type parameter; enum-level literal: none (trivial), bare `{_variant}` in 5 spellings, wrapping with 1-3 "
                 "`_variant` uses (named / implicit / explicit / aliased, optional space before `}`) or default, shuffled with text (incl. `{{_variant}}` and the bare word), "
                 "placeholders on fields common to all variants the literal applies to, literal arguments and `.*`; every variant is formatted with 1-2 value sets; "
                 "rejections: one `_variant` placeholder of a valid wrapping literal gets one of 28 specifiers or `.*`, the same enums with `debug` attributes, a multi-field "
@@ -906,7 +917,8 @@ def run(ctx):
 
     res = l2.build_and_run(ctx, "shared", live)
     ctx.extra["build_rounds"] = res.rounds
-    nsample = 0
+    cands = {}
+    seen_known = set()
     for c in live:
         ctx.count()
         if not c.trivial:
@@ -924,7 +936,6 @@ def run(ctx):
         evs = res.events.get(c.id, [])
         preds = {e["kind"]: e["val"] for e in evs if e.get("kind", "").endswith(".pred") and "val" in e}
         ncmp = 0
-        shown = False
         for e in evs:
             k = e.get("kind")
             if "got" in e and "want" in e:
@@ -938,6 +949,10 @@ def run(ctx):
                         vi = pl["variant"]
                         if vi in es.pointer_defect_variants() and preds.get(base + ".pred") == e["got"]:
                             key = "known:pointer-wrap-inferred-field-address"
+                            ctx.bump("known_pointer_wrap_events")
+                            if (c.id, vi) in seen_known:
+                                continue
+                            seen_known.add((c.id, vi))
                         else:
                             key = "mismatch:%s:%s:%s:%s" % (mode, trait, v.shape() if len(v.fields) < 2 else v.kind + "N", es.how(v))
                         what = "%s, variant %s = %s" % (c.meta["what"], v.name, pl["value"])
@@ -945,19 +960,23 @@ def run(ctx):
                         key = "mismatch:%s" % (":".join(str(x) for x in c.cls),)
                         what = "%s [%s]" % (c.meta["what"], k)
                     ctx.violate(key, "%s: got %r, reference %r" % (what, e["got"][:300], e["want"][:300]), items=c.items, body=c.body, event=e)
-                elif not shown and not c.trivial and nsample < 9 and (es is None or nsample % 2 == 0 or es.mode in ("wrap", "default")):
-                    shown = True
-                    ctx.sample({"case": c.meta["what"], "type": c.meta["enum"], "op": (pl or {}).get("value", k), "got": e["got"], "want": e["want"]}, cap=9)
+                elif not c.trivial:
+                    cat = ("fixed", c.id) if es is None else (mode, trait == "Display", es.how(v) if v else "")
+                    if cat not in cands:
+                        cands[cat] = {"case": c.meta["what"], "type": c.meta["enum"], "formatted": (pl or {}).get("value", k), "got": e["got"], "reference": e["want"]}
             elif k in ("panic", "crash"):
                 ctx.violate("panic:%s:%s" % (mode, trait), "%s: generated program %s: %s" % (c.meta["what"], k, e.get("val", "")[:300]),
                             items=c.items, body=c.body, event=e)
-        if shown:
-            nsample += 1
         if ncmp < c.expect and not any(e.get("kind") in ("panic", "crash") for e in evs):
             ctx.bump("cases_short_of_events")
     if ctx.extra.get("cases_not_run", 0) or ctx.extra.get("cases_short_of_events", 0):
         raise Inconclusive("some cases did not run to completion: not_run=%s short=%s" % (
             ctx.extra.get("cases_not_run", 0), ctx.extra.get("cases_short_of_events", 0)))
+    order = [("fixed", "doc_wrap"), ("wrap", True, "name"), ("wrap", True, "own"), ("default", True, "none"), ("wrap", False, "field"),
+             ("default", True, "own"), ("bare", True, "field"), ("default", False, "field"), ("wrap", True, "field"), ("fixed", "star")]
+    for cat in order:
+        if cat in cands and len(ctx.samples) < 8:
+            ctx.sample(cands[cat])
     for m in ("none", "bare", "wrap", "default"):
         ctx.extra["enums_" + m] = sum(1 for c in gen if c.meta["es"].mode == m)
 
